@@ -81,8 +81,8 @@ def sequences(seed=0, maxlen=3, nrandom=400, randlen=5):
         yield tuple(rnd.choice(LINES) for _ in range(randlen))
 
 
-def search(seed=0):
-    for seq in sequences(seed):
+def search(seed=0, nrandom=400, randlen=5):
+    for seq in sequences(seed, nrandom=nrandom, randlen=randlen):
         try:
             exp = oracle(seq)
         except Invalid:
@@ -97,9 +97,9 @@ def search(seed=0):
     return None
 
 
-def count_cases(seed=0):
+def count_cases(seed=0, nrandom=400, randlen=5):
     n = v = 0
-    for seq in sequences(seed):
+    for seq in sequences(seed, nrandom=nrandom, randlen=randlen):
         n += 1
         try:
             oracle(seq)
